@@ -62,6 +62,13 @@ def corpus(tier):
         g = progen.Gen(r)
         src.append(('eval:%d' % i, g.iexpr(['len', 'abs']), 'eval'))
         src.append(('single:%d' % i, '%s = %s\n' % (g.uid('s'), g.iexpr([])), 'single'))
+    # modules whose first statement is a docstring / that are empty or comment-only (code emitted before the first statement)
+    for i in range(n // 10 + 20):
+        body = progen.program(r, maxdepth=2, nstmts=2)[len(progen.PRELUDE):]
+        lead = r.choice(['', '\n', '\n\n\n', '# comment\n', '# c\n\n# d\n'])
+        src.append(('doc:%d' % i, lead + r.choice(['"""module docstring"""\n', "'''doc\nstring'''\n", '"d"\n']) + body, 'exec'))
+    for i, t in enumerate(['', '\n', '\n\n\n', '# only a comment\n', '# a\n\n# b\n', '"""only a docstring"""\n', 'pass\n', '\n\n\npass\n']):
+        src.append(('tiny:%d' % i, t, 'exec'))
     # inputs that fail to compile: only the error type must repeat
     for i, bad in enumerate(['def f(:\n', 'x = = 1\n', 'return 1\n', 'def f(a, a): pass\n', 'nonlocal x\n', 'def f():\n    x = 1\n    global x\n', 'break\n', 'f(**k, *a)\n', '"\\N{BOGUS}"\n', 'class C:\n    return 1\n', 'def f():\n  yield\n  return 1\n x\n']):
         src.append(('bad:%d' % i, bad, 'exec'))
@@ -80,7 +87,15 @@ def run(tier, rep):
         for i in order:
             sid, text, mode = src[i]
             other = src[r.randrange(len(src))][1]
-            cases.append({'id': '%s#%d' % (sid, copy), 'src': text, 'mode': mode, 'n': nrep if copy == 0 else 2, 'between': other if copy != 1 else ''})
+            bmode = 'exec'
+            if copy == 2:
+                # an interleaved compilation in ANOTHER mode, multi-line, with leading blank lines (different positions in parser state)
+                g = progen.Gen(r)
+                other = r.choice(['\n\n\n\n(%s +\n %s)', '\n\n(%s,\n\n %s)', '%s if %s else 0']) % (g.iexpr(['len']), g.iexpr(['abs']))
+                bmode = r.choice(['eval', 'eval', 'single'])
+                if bmode == 'single':
+                    other = '\n\n\nif 1:\n    x = (%s)\n\n' % g.iexpr([])
+            cases.append({'id': '%s#%d' % (sid, copy), 'src': text, 'mode': mode, 'n': nrep if copy == 0 else (4 if copy == 2 else 2), 'between': other if copy != 1 else '', 'between_mode': bmode})
     res, _ = common.run_vrun('compile', cases, timeout_case=120)
     byid = {}
     nontriv = set()
